@@ -182,6 +182,12 @@ def run(ctx):
                     sc = unwrap(pc.try_inner(a))
                 step = short(callee_of(sc), 1) if sc.get("e") in ("call", "mcall") else sc.get("e", "?")
                 break
+            if a.get("s") == "let" and "else" in a and "init" in a:
+                sc = unwrap(a["init"])
+                if local_id(sc) is not None and local_id(sc) in prov:
+                    sc = unwrap(prov[local_id(sc)])
+                step = short(callee_of(sc), 1) if sc.get("e") in ("call", "mcall") else sc.get("e", "?")
+                break
             if a.get("e") == "if":
                 step = "if"
                 break
